@@ -28,7 +28,8 @@ META = {
         'ver, every column with its remaining keys, every row key reach the grid; every column of every row is '
         'emitted.  (D7) date-time payloads: the reader converts the written instant into the named zone with astimezone (never replace/localize on the aware value), the writer emits isoformat() of the value itself plus the zone name.  Also: the h: time fields are converted with int() on digit text (no float leg, fraction cut/padded as text); the reader consumes private copies only (freshness, shared with C05.D3); SortableDict.items() pairs keys with their own values (shared with C16.D5).  Not decided: numerical closeness; equality of rebuilt objects; json.dumps/loads (trusted).'
         ' Also (D2): the JSON reference branch decides presence of the display string by `is not None` (the group can match the empty text); Ref.__init__ has_value table.'
-        " Also (D6): ordered structures are not built by walking a set expression; dict comprehensions over items() accepted in the assembly script.  A `%` whose left operand carries a value's own text is a violation (data as format)."),
+        " Also (D6): ordered structures are not built by walking a set expression; dict comprehensions over items() accepted in the assembly script.  A `%` whose left operand carries a value's own text is a violation (data as format)."
+        ' Also: a greedy first group of a decode regex cannot swallow the separator (x:type:data cut at the first colon); number texts are not trimmed in exponent form.'),
     'rule_text': 'obligations = ladder rows, kinds x (first-accepting entry, inclusion, capture markers) x 2 versions, '
                  'Remove rule, precision per kind, assembly facts',
     'trusted_base': ['re semantics of `.match`, `^`, `$`+MULTILINE, `.` without DOTALL; json.dumps/json.loads round-trip '
@@ -58,12 +59,14 @@ def run(ctx):
         for kind in _zinc.kinds_for(version):
             _kind(ctx, entries, kind, version)
     J.verbatim_payload(ctx, 'C02.D3', entries, fn)
+    J.greedy_group_splits(ctx, 'C02.D3', entries)
     J.time_fields_exact(ctx, 'C02.D5', entries, fn)
     J.number_branch(ctx, 'C02.D2', entries, fn)
     from . import _parse
     _parse.set_iteration(ctx, 'C02.D6', ('jsonparser', 'jsondumper'))
     from . import _ref
     _ref.json_ref_branch(ctx, 'C02.D2')
+    _zinc.number_text_edits(ctx, 'C02.D5', 'jsondumper')
     _ref.ref_init(ctx, 'C02.D2')
     J.parse_scalar_entry(ctx, 'C02.D2')
     # a pre-decoded document can be parsed again: the reader consumes private copies only (clause shared with C05.D3)
